@@ -89,8 +89,59 @@ def _disarm(old):
 # --------------------------------------------------------------------------- one run
 
 
+def in_child(fn, *args):
+    """Run fn(*args) in a forked child and return its (picklable) result.  The calling process never executes
+    the code under test itself, so every run starts from the module state the parent had right after import -
+    state that a run leaves behind at module or class level cannot reach the next run (or be masked by it)."""
+    import pickle
+    r, w = os.pipe()
+    pid = os.fork()
+    if pid == 0:
+        code = 0
+        try:
+            # timers are not inherited across fork: give the child its own CPU-time ceiling (default action: die)
+            signal.signal(signal.SIGPROF, signal.SIG_DFL)
+            signal.setitimer(signal.ITIMER_PROF, 1800.0)
+            os.close(r)
+            try:
+                res = fn(*args)
+            except BaseException as e:  # noqa
+                res = {"harness_error": "child: %s: %s\n%s" % (type(e).__name__, e, traceback.format_exc()[-2000:]), "violation": None}
+            with os.fdopen(w, "wb") as f:
+                pickle.dump(res, f, protocol=pickle.HIGHEST_PROTOCOL)
+        except BaseException:  # noqa
+            code = 3
+        finally:
+            os._exit(code)
+    os.close(w)
+    chunks = []
+    with os.fdopen(r, "rb") as f:
+        while True:
+            b = f.read(1 << 20)
+            if not b:
+                break
+            chunks.append(b)
+    _, status = os.waitpid(pid, 0)
+    data = b"".join(chunks)
+    if not data:
+        return {"harness_error": "child process died without a result (wait status %d)" % status, "violation": None}
+    return pickle.loads(data)
+
+
 def run_one(args):
-    """Worker entry: generate the plan of run `run_index` from the seed and execute it.
+    """Worker entry: one run in a forked child when the property asks for a fresh process per run."""
+    from sim import registry
+    mod = registry.get(args[0])
+    if getattr(mod, "FRESH_PROCESS", False) and not os.environ.get("VERIF_NO_FORK"):
+        out = in_child(_run_one, args)
+        out.setdefault("run_index", args[2])
+        out.setdefault("seed", derive_seed(args[1], args[0], args[2]))
+        return out
+    return _run_one(args)
+
+
+def _run_one(args):
+    """Generate the plan of run `run_index` from the seed and execute it.
     Returns a JSON-able dict; never raises (harness exceptions are reported in the dict)."""
     prop, base_seed, run_index, tier, cap_s, opts = args
     from sim import registry
@@ -125,9 +176,11 @@ def run_one(args):
 
 
 def execute_plan(prop, plan, cap_s=600):
-    """Execute a given plan in this process under a wall-clock cap."""
+    """Execute a given plan under a CPU-time cap (in a forked child when the property wants fresh processes)."""
     from sim import registry
     mod = registry.get(prop)
+    if getattr(mod, "FRESH_PROCESS", False) and not os.environ.get("VERIF_NO_FORK") and not plan.get("_in_child"):
+        return in_child(execute_plan, prop, dict(plan, _in_child=True), cap_s)
     old = _arm(cap_s)
     from sim import seams
     try:
